@@ -167,6 +167,9 @@ func End(v *vrt.Ctx) {
 			} else {
 				// graceful end: the final output was delivered
 				v.Assert(out != "", "C20/graceful-end-delivers-final-output")
+				// the exit text has been delivered with it: nothing of it stays
+				// in the stored session to show up at a later end
+				v.Assert(ca.LastValue == "", "C20/ended-session-keeps-no-exit-text")
 				restarted = true
 				v.Cover("C20/graceful-end")
 			}
